@@ -135,7 +135,8 @@ def gen_dataset(rng, kinds=None, allow_parts=True, cat=False, sizes=None):
             part.append(qname)
     if cat:
         cats = rng.sample(["a", "b", "c", "d"], 4)
-        cols["c"] = {"kind": "cat", "categories": cats, "values": [rng.choice(cats) for _ in range(n)]}
+        pnull = rng.choice([0.0, 0.0, 0.3])
+        cols["c"] = {"kind": "cat", "categories": cats, "values": [None if rng.random() < pnull else rng.choice(cats) for _ in range(n)]}
     names = [c for c in cols if c not in part]
     r = rng.random()
     stats = True if r < 0.6 else (False if r < 0.7 else [c for c in names if rng.random() < 0.6])
@@ -216,8 +217,6 @@ def gen_program(rng, spec, chunks_of, cols=None, wrong_type=0.03):
             if op in ("in", "not in"):
                 k = rng.choice([0, 1, 1, 2, 3])
                 const = [_const_pool(rng, spec, name, chunks_of.get(name)) for _ in range(k)]
-                if kind == "ts":
-                    const = const
             else:
                 const = _const_pool(rng, spec, name, chunks_of.get(name))
             if rng.random() < wrong_type and op not in ("in", "not in"):
